@@ -559,11 +559,19 @@ class InProtocolBase(ProtocolMixin):
                 raise ValidationError(e.message, "%s")
 
     def duration_from_unicode(self, cls, string):
-        duration = _duration_re.match(string).groupdict(0)
-        if duration is None:
+        match = _duration_re.match(string)
+
+        # the whole text must be a duration with at least one component, and
+        # a 'T' must be followed by a time component
+        if match is None or match.end() != len(string) \
+                or string.endswith('T') \
+                or all(v is None for k, v in match.groupdict().items()
+                                                             if k != 'sign'):
             raise ValidationError(string,
                 "Time data '%%s' does not match regex '%s'" %
                                                         (_duration_re.pattern,))
+
+        duration = match.groupdict(0)
 
         days = int(duration['days'])
         days += int(duration['months']) * 30
